@@ -99,7 +99,7 @@ Print Assumptions C09_literals_reviewed.
 
 (* ---- Responder::make_response AS TRANSLATED FROM THE SOURCE on this run: which six fields a reply
    carries, in which order, with the request's own nonce, path and index ---- *)
-Require Import RV.Model.GenSupport RV.Gen.Code RV.Proofs.CodeKeys.
+Require Import RV.Model.GenSupport RV.Gen.Code RV.Proofs.CodeResp.
 
 Theorem C09_translated_make_response_is_model :
   forall srep cert_bytes path idx nonce,
@@ -114,30 +114,30 @@ Print Assumptions C09_translated_make_response_is_model.
    destination are inputs. Same tree afterwards, same datagrams in the same order to the same
    destinations, same events, same decisions consumed as the model's send_responses, or both fail.
    (nonces_ok: every queued nonce has at least 4 bytes — the debug record of the model prints 4.) ---- *)
-Require RV.Proofs.CodeServer RV.Proofs.CodeClient.
+Require RV.Proofs.CodeLib RV.Proofs.CodeRespond.
 Theorem C09_translated_send_responses_is_model :
   forall H ed_sign cfg now r g sock st,
-  RV.Proofs.CodeServer.nonces_ok (r_requests r) -> g_fault g = fault_pct cfg ->
-  ok_opt (RV.Proofs.CodeServer.omap (fun '(t', g', s', st') => (t', g_coins g', s', st'))
+  RV.Proofs.CodeRespond.nonces_ok (r_requests r) -> g_fault g = fault_pct cfg ->
+  ok_opt (RV.Proofs.CodeLib.omap (fun '(t', g', s', st') => (t', g_coins g', s', st'))
      (gen_send_responses H ed_sign now (send_fails cfg) (r_version r) (r_online_seed r) (r_cert_bytes r)
         (r_requests r) (r_merkle r) g sock st))
-  = RV.Proofs.CodeClient.obo (ok_opt (send_responses H ed_sign cfg r now (g_coins g))) (fun '(r', bo) =>
+  = RV.Proofs.CodeLib.obo (ok_opt (send_responses H ed_sign cfg r now (g_coins g))) (fun '(r', bo) =>
       Some (r_merkle r', bo_coins bo, sock ++ bo_sent bo, st ++ bo_stats bo)).
-Proof. exact RV.Proofs.CodeServer.gen_send_responses_model. Qed.
+Proof. exact RV.Proofs.CodeRespond.gen_send_responses_model. Qed.
 Print Assumptions C09_translated_send_responses_is_model.
 
 Theorem C09_translated_queueing_is_model :
   forall H r data nonce src,
-  RV.Proofs.CodeServer.omap (fun '(t, rq) => mkresp (r_version r) (r_online_seed r) (r_cert_bytes r) rq t)
+  RV.Proofs.CodeLib.omap (fun '(t, rq) => mkresp (r_version r) (r_online_seed r) (r_cert_bytes r) rq t)
        (gen_add_ietf_request H (r_merkle r) (r_requests r) data nonce src)
   = lift (responder_add H r data nonce src)
-  /\ RV.Proofs.CodeServer.omap (fun '(t, rq) => mkresp (r_version r) (r_online_seed r) (r_cert_bytes r) rq t)
+  /\ RV.Proofs.CodeLib.omap (fun '(t, rq) => mkresp (r_version r) (r_online_seed r) (r_cert_bytes r) rq t)
        (gen_add_classic_request H (r_merkle r) (r_requests r) nonce src)
   = lift (responder_add H r nonce nonce src)
-  /\ RV.Proofs.CodeServer.omap (fun '(t, rq) => mkresp (r_version r) (r_online_seed r) (r_cert_bytes r) rq t)
+  /\ RV.Proofs.CodeLib.omap (fun '(t, rq) => mkresp (r_version r) (r_online_seed r) (r_cert_bytes r) rq t)
        (gen_responder_reset (r_merkle r) (r_requests r))
   = Ok (responder_reset r).
-Proof. exact RV.Proofs.CodeServer.gen_queueing_model. Qed.
+Proof. exact RV.Proofs.CodeRespond.gen_queueing_model. Qed.
 Print Assumptions C09_translated_queueing_is_model.
 
 (* ---- Server::process_events, translated from src/server.rs on this run, for a wake-up with the
@@ -148,12 +148,12 @@ Print Assumptions C09_translated_queueing_is_model.
    shared by the two responders as in the model.) ---- *)
 Theorem C09_translated_process_events_is_model :
   forall H ed_sign cfg clk on_health on_status srv ri rc q sent buf st coins k events,
-  ok_opt (RV.Proofs.CodeServer.omap (fun '(sock, _, ri', rc', st', _, _) => (ri', rc', snd sock, st'))
+  ok_opt (RV.Proofs.CodeLib.omap (fun '(sock, _, ri', rc', st', _, _) => (ri', rc', snd sock, st'))
      (gen_process_events H ed_sign cfg clk [EvMessage] on_health on_status (N.of_nat (batch_size cfg))
         (q, sent) buf srv ri rc st coins k events))
-  = RV.Proofs.CodeClient.obo (ok_opt (drain H ed_sign (S (length q)) (mksrv cfg srv ri rc) q clk k coins))
+  = RV.Proofs.CodeLib.obo (ok_opt (drain H ed_sign (S (length q)) (mksrv cfg srv ri rc) q clk k coins))
       (fun '(s2, o) => Some (s_ietf s2, s_classic s2, sent ++ so_sent o, st ++ so_stats o)).
-Proof. exact RV.Proofs.CodeServer.gen_process_events_model. Qed.
+Proof. exact RV.Proofs.CodeRespond.gen_process_events_model. Qed.
 Print Assumptions C09_translated_process_events_is_model.
 
 (* a wake-up for the health-check listener or the statistics timer touches neither the responders
@@ -164,5 +164,5 @@ Theorem C09_translated_other_events_leave_requests_alone :
   = Ok (sock, buf, ri, rc, on_health st, coins, k)
   /\ gen_process_events H ed_sign cfg clk [EvStatusUpdate] on_health on_status bs sock buf srv ri rc st coins k events
   = Ok (sock, buf, ri, rc, on_status st, coins, k).
-Proof. exact RV.Proofs.CodeServer.gen_process_events_other. Qed.
+Proof. exact RV.Proofs.CodeRespond.gen_process_events_other. Qed.
 Print Assumptions C09_translated_other_events_leave_requests_alone.
